@@ -364,7 +364,12 @@ func NewWorld(bin string, clock *Clock, rnd *RandStream) *World {
 	root := filepath.Join(base, fmt.Sprintf("ergosim.%d.%d", os.Getpid(), wn))
 	os.RemoveAll(root)
 	if err := os.MkdirAll(filepath.Join(root, "proj"), 0o755); err != nil {
-		harnessf("mkdir world: %v", err)
+		// /dev/shm present but not usable: fall back to the temp directory
+		root = filepath.Join(os.TempDir(), fmt.Sprintf("ergosim.%d.%d", os.Getpid(), wn))
+		os.RemoveAll(root)
+		if err := os.MkdirAll(filepath.Join(root, "proj"), 0o755); err != nil {
+			harnessf("mkdir world: %v", err)
+		}
 	}
 	os.MkdirAll(filepath.Join(root, "io"), 0o755)
 	return &World{
